@@ -289,23 +289,58 @@ def c19_run(ctx):
     ctx.extra["amalgamation_identical"] = j is None
     if j:
         ctx.failures.append(j)
-    # (ii) feature neutrality: the same feature-free scenario under every feature subset, for both activation modes
+    # (ii) feature neutrality: a scenario that uses the feature set U (nothing, or exactly one of plans / history /
+    # serialization) must run identically under every superset of U — enabling a switch the program does not use
+    # never changes what it observes.  Projection: log records and the fields of unused features are dropped.
     import itertools
     nvariants = 0
-    for manual in (False, True):
-        base = dict(n=3, L=3, head=True, payload="u8", ctx="ref", manual=manual)
-        variants = []
-        flags = list(itertools.product([False, True], repeat=4))
+    FEATS = ("plans", "history", "serial", "log")
+    off_menu = {"plans": ("succeed", "fail", "planAppend", "planClear", "planRemove"), "history": ("replayTransition", "replayEnter"),
+                "serial": ("save", "load"), "log": ("attachLogger",)}
+
+    def projection(lines, used):
+        out = []
+        for l in lines:
+            if l.startswith("log "):
+                continue
+            for fld, feat in (("plan", "plans"), ("prev", "history"), ("bytes", "serial")):
+                if feat not in used:
+                    l = re.sub(r" %s=(\[[^\]]*\]|\S+)" % fld, "", l)
+            out.append(l)
+        return out
+
+    scenarios = [((), False), ((), True), (("plans",), False), (("history",), False), (("serial",), True)]
+    if ctx.thorough:
+        scenarios += [(("plans",), True), (("history",), True), (("serial",), False), (("plans", "serial"), False)]
+    extras = [(), ("FFSM2_ENABLE_STRUCTURE_REPORT",), ("FFSM2_ENABLE_DEBUG_STATE_TYPE",), ("FFSM2_DISABLE_TYPEINDEX",),
+              ("FFSM2_ENABLE_STRUCTURE_REPORT", "FFSM2_ENABLE_DEBUG_STATE_TYPE", "FFSM2_DISABLE_TYPEINDEX")]
+    cases = []
+    for used, manual in scenarios:
+        base = dict(n=3, L=3, cap=5, head=True, payload="u8", ctx="ref", manual=manual)
+        others = [f for f in FEATS if f not in used]
+        subsets = [c for r in range(len(others) + 1) for c in itertools.combinations(others, r)]
         if not ctx.thorough:
-            flags = [f for k, f in enumerate(flags) if k in (0, 1, 2, 4, 8, 15, 6, 9)]
-        extras = [(), ("FFSM2_ENABLE_STRUCTURE_REPORT",), ("FFSM2_ENABLE_DEBUG_STATE_TYPE",), ("FFSM2_DISABLE_TYPEINDEX",),
-                  ("FFSM2_ENABLE_STRUCTURE_REPORT", "FFSM2_ENABLE_DEBUG_STATE_TYPE", "FFSM2_DISABLE_TYPEINDEX")]
-        for k, (pl, hi, se, lg) in enumerate(flags):
-            variants.append(G.Config(plans=pl, history=hi, serial=se, log=lg, extra_defs=extras[k % len(extras)] if ctx.thorough or k < 5 else (), **base))
+            if used:
+                subsets = [(), tuple(others)] + [(o,) for o in others if o != "log"]
+            else:
+                subsets = [c for k, c in enumerate(subsets) if k in (0, 1, 2, 3, 4, 15, 6, 9)]
+        variants = []
+        for k, extra_on in enumerate(subsets):
+            on = set(used) | set(extra_on)
+            variants.append(G.Config(plans="plans" in on, history="history" in on, serial="serial" in on, log="log" in on,
+                                     extra_defs=extras[k % len(extras)] if (ctx.thorough or (not used and k < 5)) else (), **base))
         nvariants += len(variants)
-        gen_cfg = G.Config(plans=False, history=False, serial=False, log=False, **base)
-        cases = [MM.gen_case(ctx.rng, gen_cfg, "n%d" % k, ctx.rng.randint(8, 20), {"menu": {"save": 0, "load": 0, "succeed": 0, "fail": 0, "planAppend": 0,
-                 "planClear": 0, "planRemove": 0, "replayTransition": 0, "attachLogger": 0, "replayEnter": 0, "exit": 10, "enter": 12, "changeTo": 14}}) for k in range(120 if ctx.thorough else 40)]
+        gen_cfg = G.Config(plans="plans" in used, history="history" in used, serial="serial" in used, log=False, **base)
+        menu = {"exit": 10, "enter": 12, "changeTo": 14}
+        for f in FEATS:
+            if f not in used:
+                for m in off_menu[f]:
+                    menu[m] = 0
+        if "plans" in used:
+            menu.update({"planAppend": 30, "succeed": 12, "update": 30})
+        if "serial" in used:
+            menu.update({"save": 10, "load": 10, "copy": 4})
+        cases = [MM.gen_case(ctx.rng, gen_cfg, "n%d" % k, ctx.rng.randint(8, 20), {"menu": menu}) for k in range(120 if ctx.thorough else 40)]
         with ThreadPoolExecutor(max_workers=C.NCPU) as ex:
             built = list(ex.map(MM.build, variants))
         ref = None
@@ -317,24 +352,25 @@ def c19_run(ctx):
             vc = [[c[0], v.cfg_line()] + c[2:] for c in cases]
             rc_i, ci, rc_m, cm = MM.run_cases(exe, vc, timeout=120)
             ctx.stats["programs"] = ctx.stats.get("programs", 0) + 1
-            pi = [neutral_projection(x) for x in ci]
-            pm = [neutral_projection(x) for x in cm]
+            pi = [projection(x, used) for x in ci]
+            pm = [projection(x, used) for x in cm]
             ctx.stats["evaluations"] += len(ci)
             for x in pi:
                 ctx.stats["distinct"].add(hash(tuple(x)))
             if ref is None:
-                ref = (v, pi)
+                ref = (v, pi, exe)
             else:
                 for k, (a, b) in enumerate(zip(ref[1], pi)):
                     if a != b:
                         j = next((q for q in range(min(len(a), len(b))) if a[q] != b[q]), 0)
-                        def still(c, _e1=built[0][0], _e2=exe, _v0=ref[0], _v=v):
+                        def still(c, _e1=ref[2], _e2=exe, _v0=ref[0], _v=v, _u=used):
                             r1 = MM.run_cases(_e1, [[c[0], _v0.cfg_line()] + c[2:]], timeout=60)[1]
                             r2 = MM.run_cases(_e2, [[c[0], _v.cfg_line()] + c[2:]], timeout=60)[1]
-                            return bool(r1) and bool(r2) and neutral_projection(r1[0]) != neutral_projection(r2[0])
+                            return bool(r1) and bool(r2) and projection(r1[0], _u) != projection(r2[0], _u)
                         mc = MM.minimise_case(exe, vc[k], "C19", still)
-                        ctx.failures.append({"what": "enabling unused features changes observable behaviour", "base": ref[0].cfg_line()[:110],
-                                             "variant": v.cfg_line()[:110] + " " + str(v.extra_defs), "minimal_case": mc, "base_trace": a[max(0, j - 2):j + 2], "variant_trace": b[max(0, j - 2):j + 2]})
+                        ctx.failures.append({"what": "enabling features the program does not use changes what it observes (features used by the scenario: %s)" % (list(used) or "none"),
+                                             "base": ref[0].cfg_line()[:110], "variant": v.cfg_line()[:110] + " " + str(v.extra_defs), "minimal_case": mc,
+                                             "base_trace": a[max(0, j - 2):j + 2], "variant_trace": b[max(0, j - 2):j + 2]})
                         break
             for k, (a, b) in enumerate(zip(pi, pm)):
                 if a != b:
@@ -454,7 +490,7 @@ REGISTRY = {
     "C08": Spec("FFSM2.Props.C08", ["ids", "config"], machine_run("C08", ("random", "planveto"))),
     "C09": Spec("FFSM2.Props.C09", ["ids", "config"], machine_run("C09", ("random", "planveto", "reactivate"))),
     "C11": Spec("FFSM2.Props.C11", ["ids"], machine_run("C11", ("random", "replica"))),
-    "C12": Spec("FFSM2.Props.C12", ["ids", "serial", "bitwidth", "contain", "typebits", "buffers"], c12_run),
+    "C12": Spec("FFSM2.Props.C12", ["ids", "serial", "bitwidth", "contain", "typebits", "buffers"], c12_run, extra=("FFSM2.Props.History",)),
     "C16": Spec("FFSM2.Props.C16", ["ids"], machine_run("C16"), extra=("FFSM2.Props.History",)),
     "C17": Spec("FFSM2.Props.C17", ["ids"], machine_run("C17", ("random", "reactivate")), extra=("FFSM2.Props.History",)),
 }
